@@ -51,7 +51,10 @@ def place(r):
     """where the harness puts input and output of a stream call relative to 16-byte boundaries: a third in place (half of
     them at an offset), otherwise separate buffers whose alignments are chosen INDEPENDENTLY (one aligned + the other
     not, both misaligned differently, both equal)"""
-    k = r.below(12)
+    k = r.below(13)
+    if k == 12:
+        # the output starts where the input ends / ends where it starts: buffers that touch do not overlap
+        return " %s %d" % (r.choice(["after", "before"]), r.choice([0, 0, r.range(1, 15)]))
     if k < 2:
         return " inplace"
     if k < 4:
@@ -78,7 +81,9 @@ def gen_case(r, tier, long_blocks=0):
         ops.append(block_op(r))
     if r.chance(1, 6):
         ops.append("buf %d %s%s" % (rnonce(r), vlib.hx(r.bytes(rsize(r, tier))),
-                                    "" if r.chance(1, 3) else " %d %d" % (roff(r), roff(r))))
+                                    "" if r.chance(1, 3) else
+                                    " %s %d" % (r.choice(["after", "before"]), r.choice([0, r.range(1, 15)])) if r.chance(1, 6) else
+                                    " %d %d" % (roff(r), roff(r))))
     ops.append("init %d" % rnonce(r))
     lives = 1 + r.below(3)
     for life in range(lives):
@@ -253,6 +258,8 @@ def _offsets(t):
     a = t[2:] if t[0] in ("block", "stream") else t[3:] if t[0] == "buf" else []
     if a[:1] == ["inplace"]:
         return (int(a[1]),) * 2 if len(a) > 1 else (0, 0)
+    if a[:1] in (["after"], ["before"]):
+        return (int(a[1]), int(a[1]))
     if len(a) >= 2:
         return int(a[0]), int(a[1])
     return (0, 0) if t[0] in ("block", "stream", "buf") else None
@@ -288,6 +295,8 @@ def classify(case, out):
             tags.append("key%d" % (len(t[1]) * 4))
         if t[0] == "stream" and "inplace" in t[2:]:
             tags.append("inplace")
+        if t[0] in ("stream", "buf") and ("after" in t[2:] or "before" in t[2:]):
+            tags.append("%s:buffers-touch" % t[0])
         if t[0] == "block" and "inplace" in t[2:]:
             tags.append("block:inplace")
         if t[0] in ("block", "stream", "buf"):
